@@ -288,8 +288,9 @@ Definition mat_product (self arg : operand) : outcome :=
                     let n := p :: rest in
                     let c := if suitable (ocls arg) n then ocls arg
                              else if suitable (ocls self) n then ocls self else CQube in
+                    (* Qube.cast does not hand units to a class that disallows them *)
                     mk c (promote (okind self) (okind arg)) L n (odenom self ++ odenom arg)
-                       (unit_mul (ounit self) (ounit arg))
+                       (if units_ok c then unit_mul (ounit self) (ounit arg) else None)
                        (Some (matmul (olead self) (olead arg) L q rest (odenom self) (odenom arg)
                                      (oget self) (oget arg)))
                 end
